@@ -9,6 +9,7 @@ import SSEPyVerif.Proofs.Schemes.ChainCfg
 import SSEPyVerif.Proofs.Schemes.SSE2
 import SSEPyVerif.Proofs.Schemes.PiPtr
 import SSEPyVerif.Proofs.Schemes.ANSS16
+import SSEPyVerif.Proofs.Schemes.CT14
 namespace SSEPy.C02
 open SSEPy.Sch SSEPy.Sch.Chain
 
@@ -34,6 +35,21 @@ theorem PiPtr.search_absent_empty (cfg : PiPtrCfg) (lv : Leaves) (edb : PiPtrEDB
 theorem ANSS16.search_absent_empty (cfg : ANSSCfg) (lv : Leaves) (edb : ANSSEDB) (tk : ANSSToken)
     (hmiss : edb.HTS.get tk.liP = none) : ANSS16.search cfg lv edb tk = .ok [] := by
   simp [ANSS16.search, hmiss]
+
+/-- CT14: a keyword none of whose level labels is stored gets the empty result -/
+theorem CT14.search_absent_empty (cfg : CT14Cfg) (lv : Leaves) (HT : List Table) (K0 K1 : Bytes)
+    (hfresh : ∀ j, j < HT.length → ∃ l, cfg.prfFPrime.call lv.hmac K0 (natToBytesMin j) = .ok l ∧
+      (HT[j]?).bind (·.get l) = none) :
+    CT14.search cfg lv HT (K0, K1) = .ok [] := by
+  unfold CT14.search
+  simp only
+  generalize hn : HT.length = n at hfresh
+  clear hn
+  induction n with
+  | zero => rfl
+  | succ i ih =>
+    obtain ⟨l, hl, hnone⟩ := hfresh i (by omega)
+    simp [CT14.searchLevels, hl, hnone, ih (fun j hj => hfresh j (by omega)), bind, Except.bind, pure, Except.pure]
 
 /-- SSE-2: a keyword whose first address `π(w ‖ 1)` is not the address of a stored posting gets the empty result -/
 theorem SSE2.search_absent_empty (cfg : SSE2Cfg) (lv : Leaves) (K1 : Bytes) (db : DB) (I : ITable)
